@@ -401,14 +401,14 @@ def scenarios(ctx):
     ctx.notes["hazard_classes_enabled"] = sorted(hz)
     scs = []
     # ---- (a) TLC-enumerated pile-up columns, (c) genotype triples ----
-    gen = tlc.generate("Gen_X03", {"MaxCount": 3 if q else 4, "MaxAllele": 2})
+    gen = tlc.generate("Gen_X03", {"MaxCount": 4 if q else 5, "MaxRef": 10 if q else 13, "MaxAllele": 2})
     cols = [g for g in gen if g["k"] == "col"]
     triples = [g for g in gen if g["k"] == "mendel"]
     ctx.notes["tlc_enumerated"] = {"pileup_columns": len(cols), "genotype_triples": len(triples)}
     parsets = [{"minabs": a, "relnum": r[0], "relden": r[1], "multi": m, "dtype": "", "chrom": 0}
                for a in (1, 2, 3) for r in ((0, 1), (1, 4), (2, 5), (1, 2)) for m in (False, True)]
     if q:
-        parsets = [p for i, p in enumerate(parsets) if i % 4 in (0, 3)]
+        parsets = [p for i, p in enumerate(parsets) if i % 2 == (i // 8) % 2]
     n0 = len(scs)
     for par in parsets:
         order = list(cols)
@@ -423,7 +423,7 @@ def scenarios(ctx):
             p["dtype"] = dt
             scs.append(pack_columns(rng, order[i:i + 8], p))
     ctx.notes["snv_worlds_from_tlc_columns"] = len(scs) - n0
-    for _ in range(500 if q else 6000):
+    for _ in range(1500 if q else 40000):
         scs.append(rand_snv_world(rng))
     if "stdout" in hz:
         for _ in range(6 if q else 40):
@@ -434,7 +434,7 @@ def scenarios(ctx):
         for _ in range(40 if q else 300):
             scs.append(rand_snv_world(rng, refskip=True))
     # ---- (b) hapcut2vcf ----
-    for _ in range(400 if q else 5000):
+    for _ in range(1000 if q else 25000):
         scs.append(rand_hapcut(rng))
     if "hc_after" in hz:
         for _ in range(12 if q else 100):
@@ -445,15 +445,15 @@ def scenarios(ctx):
     for k in ("noblock", "badheader", "fields10", "fields8", "fv", "colon3", "latebad"):
         scs.append({"kind": "happarse", "what": k})
     # ---- (c) pedigree utilities ----
-    for _ in range(300 if q else 3000):
+    for _ in range(600 if q else 10000):
         scs.append(rand_ped(rng))
     for i in range(0, len(triples), 36):
         scs.append({"kind": "mendel", "triples": [[t["m"], t["f"], t["c"]] for t in triples[i:i + 36]], "flip": i % 72 == 0})
-    for _ in range(300 if q else 4000):
+    for _ in range(600 if q else 15000):
         scs.append(rand_uniform(rng))
-    for _ in range(300 if q else 4000):
+    for _ in range(800 if q else 20000):
         scs.append(rand_genmap(rng))
-    for _ in range(60 if q else 500):
+    for _ in range(60 if q else 1000):
         scs.append({"kind": "mapload", "kinds": ["header"] + [rng.choice(MAPKINDS[:4] if rng.random() < 0.6 else MAPKINDS)
                                                                for _ in range(rng.randint(0, 5))]})
     # ---- (d) CovMonitor histories from TLC ----
@@ -464,7 +464,7 @@ def scenarios(ctx):
     scs += [{"kind": "cov", "length": 2 if q else 3, "ops": h} for h in hs]
     cfg = tlc.write_cfg(os.path.join(ctx.workdir, "covsim.cfg"), spec="Spec", consts={"Length": 6, "Depth": 12},
                         constraint="Bound", invariants=["Emit"])
-    hs, _ = tlc.behaviours("MC_X03Cov", cfg, simulate=f"num={300 if q else 4000}", depth=13, seed=ctx.seed + 11)
+    hs, _ = tlc.behaviours("MC_X03Cov", cfg, simulate=f"num={300 if q else 10000}", depth=13, seed=ctx.seed + 11)
     ctx.notes["cov_sim_histories"] = len(hs)
     scs += [{"kind": "cov", "length": 6, "ops": h} for h in hs]
     # ---- helpers ----
@@ -572,8 +572,16 @@ def _project_call(call):
     return gt, ph and bool(gt), int(ps) if ps not in (".", "") else 0
 
 
+_FROZEN = False
+
+
 def drive_hapcut(sc):
     import gc
+    global _FROZEN
+    if not _FROZEN:             # the forked worker inherits a large heap (all scenarios): keep the per-run collections cheap
+        gc.collect()
+        gc.freeze()
+        _FROZEN = True
     import logging
     import pathlib
     from .. import world as WD
